@@ -180,6 +180,46 @@ impl Scratch {
     }
 }
 
+impl Scratch {
+    /// Remove everything a case left behind (error paths and shrinking do not clean up after
+    /// themselves; tmpfs is RAM, so leaks must not accumulate over a shard).
+    pub fn sweep(&self) {
+        for root in [&self.shm_root, &self.tmp_root] {
+            if let Ok(rd) = std::fs::read_dir(root) {
+                for e in rd.filter_map(|e| e.ok()) {
+                    let p = e.path();
+                    if p.is_dir() {
+                        let _ = std::fs::remove_dir_all(&p);
+                    } else {
+                        let _ = std::fs::remove_file(&p);
+                    }
+                }
+            }
+        }
+    }
+}
+
+/// Remove scratch roots left by harness processes that no longer exist (killed workers).
+pub fn sweep_stale_scratch() {
+    for base in ["/dev/shm", "/tmp"] {
+        let Ok(rd) = std::fs::read_dir(base) else { continue };
+        for e in rd.filter_map(|e| e.ok()) {
+            let name = e.file_name().to_string_lossy().to_string();
+            let rest = if let Some(r) = name.strip_prefix("nomt-verif-out.") {
+                r
+            } else if let Some(r) = name.strip_prefix("nomt-verif.") {
+                r
+            } else {
+                continue;
+            };
+            let Some(pid) = rest.split('.').next().and_then(|p| p.parse::<u32>().ok()) else { continue };
+            if !Path::new(&format!("/proc/{pid}")).exists() {
+                let _ = std::fs::remove_dir_all(e.path());
+            }
+        }
+    }
+}
+
 impl Drop for Scratch {
     fn drop(&mut self) {
         let _ = std::fs::remove_dir_all(&self.shm_root);
